@@ -43,7 +43,17 @@ ASSUMPTIONS = [
     'members of bit-fields are addressed by position in the model; a renamed / reordered member with equal widths is '
     'visible to the correspondence run only (not to the theorems)',
     'operations of other properties (SDR, SEL, FRU, HPM upgrade, DCMI, raw) are not exercised here (evidence: not_exercised_ops)',
-    'query_rollback_status: the API exposes only a non-zero completion estimate; only that is compared',
+    'documented denotation choices where the audit of the unchanged code (findings/c07) saw an ambiguity or a layout '
+    'the repository\'s own tests pin - NOT reported as violations: (finding_1) set/get_event_receiver take and return the '
+    '7-bit IPMB address of the receiver (slave address / 2; tests/msgs/test_event.py pins the 7-bit field), so FFh '
+    '"event generation disabled" reads as 7Fh; (finding_3) LED durations are raw 10 ms / 100 ms units when written '
+    '(tests/test_picmg.py pins LedState.to_request) and milliseconds when read, so an object read back is not a valid '
+    'argument for a write; (finding_6) DeviceId.available is the raw bit 7 of byte 4 (1 = update in progress), not '
+    'its negation',
+    'get_lan_config_param(revision_only=1) denotes the parameter revision byte (IPMI 23.2 response byte 2) of the addressed '
+    'channel and parameter; query_rollback_status denotes the component mask and the completion estimate (None while absent, '
+    '0 is an estimate); get_sensor_reading denotes (None, None) while response byte 3 bit 5 "reading/state unavailable" '
+    'is set (IPMI 35.14); Re-arm Sensor Events sets that flag in the reference BMC until its next scan (35.12/35.14)',
 ]
 TRUSTED = ['harness/translate/tables.py', 'harness/translate/registry.py', 'harness/sim/bmc_iface.py',
            'harness/props/c07.py (op table, canonicalisers)', 'lean/Drivers/C07.lean (parseCall, showResult, state generator)',
@@ -232,7 +242,16 @@ def c_selftest(r):
 
 
 def c_rollback(r):
-    return 'None %s' % _o(getattr(r, 'percent_complete', None))
+    """mask of the rolled-back components + completion estimate; an object without the mask (the decoder as
+    shipped) is shown the way the as-shipped model shows it: no mask, a non-zero estimate"""
+    if not hasattr(r, 'rollback_status'):
+        return 'None %s' % _o(getattr(r, 'percent_complete', None))
+    return 'status=%s pct=%s' % (_o(r.rollback_status), _o(getattr(r, 'percent_complete', None)))
+
+
+def c_lan_param(r):
+    """parameter data (normal mode) or the parameter revision, a number (revision-only mode)"""
+    return '%d' % r if isinstance(r, int) and not isinstance(r, bool) else _hex(r)
 
 
 # ------------------------------------------------------------------------------------------
@@ -366,6 +385,8 @@ class Op(object):
         self.gen, self.call, self.canon = gen, call, canon
         self.changers = list(changers)
         self.denote = lambda tok: tok      # tokens as the specification reads them
+        # specific name of a result violation for (tokens, expected, observed), or None for the generic one
+        self.sigfield = lambda tok, exp, obs: None
 
 
 def _remember_wd(ip, w):
@@ -429,8 +450,9 @@ _op('set_boot_options', 'boot', False, lambda r: _T(r.randrange(12), r.randrange
     lambda ip, t: ip.set_boot_options(_boot_device_member(int(t[0])), 'efi' if t[1] == '1' else 'legacy', t[2] == '1'), c_none)
 # --- LAN
 _op('get_lan_config_param', 'lan', True,
-    lambda r: _T(g_chan(r), r.choice([0, 3, 4, 5, 6, 12, 16, 20, g_byte(r)]), r.choice([0, 0, g_byte(r)]), r.choice([0, 0, g_byte(r)]), 1 if r.random() < 0.1 else 0),
-    lambda ip, t: ip.get_lan_config_param(*_i(t)), c_hex, ['mut:lan', 'set_lan_config_param'])
+    lambda r: _T(g_chan(r), r.choice([0, 3, 4, 5, 6, 12, 16, 20, g_byte(r)]), r.choice([0, 0, g_byte(r)]), r.choice([0, 0, g_byte(r)]), 1 if r.random() < 0.3 else 0),
+    lambda ip, t: ip.get_lan_config_param(*_i(t)), c_lan_param, ['mut:lan', 'set_lan_config_param'])
+OPS['get_lan_config_param'].sigfield = lambda tok, exp, obs: 'revision-only' if tok[4] == '1' else None
 _op('set_lan_config_param', 'lan', False, g_set_lan,
     lambda ip, t: ip.set_lan_config_param(int(t[0]), int(t[1]), bytearray(lean.unhex(t[2]))), c_none)
 _op('get_ip_address', 'lan', True, lambda r: _T(g_chan(r)), lambda ip, t: ip.get_ip_address(int(t[0])), c_str, ['mut:lan', 'set_ip_address'])
@@ -460,7 +482,9 @@ _op('enable_user', 'users', False, lambda r: _T(g_uid(r)), lambda ip, t: ip.enab
 _op('disable_user', 'users', False, lambda r: _T(g_uid(r)), lambda ip, t: ip.disable_user(int(t[0])), c_none)
 # --- sensors / events
 _op('get_sensor_reading', 'sensors', True, lambda r: _T(g_sensor(r), r.randrange(4)),
-    lambda ip, t: ip.get_sensor_reading(int(t[0]), int(t[1])), c_pair, ['mut:sensors'])
+    lambda ip, t: ip.get_sensor_reading(int(t[0]), int(t[1])), c_pair, ['mut:sensors', 'mut:sensors', 'mut:unavail', 'rearm_sensor_events'])
+OPS['get_sensor_reading'].sigfield = lambda tok, exp, obs: (
+    'states-while-unavailable' if exp == 'None None' and obs.startswith('None ') else None)
 _op('set_sensor_thresholds', 'sensors', False,
     lambda r: _T(g_sensor(r), r.randrange(4), *[('n' if r.random() < 0.5 else g_byte(r)) for _ in range(6)]),
     lambda ip, t: ip.set_sensor_thresholds(int(t[0]), int(t[1]), **dict((k, _opt(v)) for k, v in zip(THR, t[2:]))), c_none)
@@ -518,6 +542,7 @@ _op('get_upgrade_status', 'hpm', True, lambda r: [], lambda ip, t: ip.get_upgrad
 _op('get_target_upgrade_capabilities', 'hpm', True, lambda r: [], lambda ip, t: ip.get_target_upgrade_capabilities(), c_hpm_caps, ['mut:hpm'])
 _op('query_selftest_results', 'hpm', True, lambda r: [], lambda ip, t: ip.query_selftest_results(), c_selftest, ['mut:hpm'])
 _op('query_rollback_status', 'hpm', True, lambda r: [], lambda ip, t: ip.query_rollback_status(), c_rollback, ['mut:hpm'])
+OPS['query_rollback_status'].sigfield = lambda tok, exp, obs: None if (obs[:3] in ('py:', 'cc:') or obs.startswith('canon:')) else 'result'
 
 FAMILIES = sorted(set(o.fam for o in OPS.values()))
 # send_channel_power: current_limit is a float in ampere, the wire carries tenths: only values x = k/10.0
@@ -647,17 +672,26 @@ def run_history(drv, hist, modelled, ctx=None, verbose=False):
             obs = 'py:' + type(e).__name__
         now = [drv.ask('digest %d' % i) for i in range(nb)]
         if verbose:
-            out.trace.append('  step %d conn %d bmc %d: %s -> code: %s | spec: %s%s' % (
-                idx, k, bi, line, obs, exp_res, '' if now[bi] == exp_dig else '  [BMC state differs from spec]'))
+            wire = '; '.join('netfn %02xh lun %d cmd %02xh data %s' % (e[0], e[1], e[2], e[3] or '-') for e in ifaces[k].log[log_from:])
+            out.trace.append('  step %d conn %d bmc %d: %s -> code: %s | spec: %s%s   [on the wire: %s]' % (
+                idx, k, bi, line, obs, exp_res, '' if now[bi] == exp_dig else '  [BMC state differs from spec]', wire or 'nothing'))
         if ctx is not None:
             ctx.case((st['op'], tuple(tok), digests[bi]))
             ctx.count('op:' + st['op'])
             ctx.count('family:' + op.fam)
             ctx.count('outcome:' + ('cc' if obs.startswith('cc:') else 'exception' if obs.startswith('py:') else 'ok'))
+            if st['op'] == 'get_lan_config_param':
+                ctx.count('lan_read:' + ('revision-only channel %s' % ('0' if tok[0] == '0' else '1-15') if tok[4] == '1' else 'data'))
+            if st['op'] == 'get_sensor_reading':
+                ctx.count('sensor_read:' + ('reading/state unavailable' if exp_res == 'None None' else 'available'))
+            if st['op'] == 'query_rollback_status':
+                ctx.count('rollback_read:mask %s, estimate %s' % (
+                    'zero' if exp_res.startswith('status=0 ') else 'non-zero',
+                    'absent' if exp_res.endswith('pct=None') else 'zero' if exp_res.endswith('pct=0') else 'non-zero'))
         viol = None
         if obs != exp_res:
             if op.read:
-                fld = _field_of_diff(exp_res, obs)
+                fld = op.sigfield(tok, exp_res, obs) or _field_of_diff(exp_res, obs)
             else:
                 fld = 'raises' if (obs.startswith('py:') or obs.startswith('cc:')) else 'result'
             viol = ('C07:%s:%s' % (st['op'], fld),
@@ -703,7 +737,8 @@ def run_history(drv, hist, modelled, ctx=None, verbose=False):
 # history generation
 # ------------------------------------------------------------------------------------------
 
-MUT_FAMS = dict((k, k) for k in ('device', 'guid', 'chassis', 'boot', 'lan', 'users', 'sensors', 'events', 'picmg', 'power', 'fans', 'leds', 'ports', 'hpm'))
+MUT_FAMS = dict((k, k) for k in ('device', 'guid', 'chassis', 'boot', 'lan', 'users', 'sensors', 'unavail', 'events', 'picmg', 'power', 'fans', 'leds',
+                                 'ports', 'hpm'))
 
 
 def gen_history(rng, tier, focus=None):
@@ -749,7 +784,7 @@ def gen_history(rng, tier, focus=None):
                 # aim the write at the object just read where the shapes allow it
                 if ch == 'set_led_state' or ch == 'set_fan_level':
                     wt[:len(tok)] = tok[:len(wt)] if ch == 'set_fan_level' else tok
-                if ch in ('set_username', 'enable_user', 'disable_user', 'set_sensor_thresholds'):
+                if ch in ('set_username', 'enable_user', 'disable_user', 'set_sensor_thresholds', 'rearm_sensor_events'):
                     wt[:len(tok)] = tok if ch == 'set_sensor_thresholds' else tok[:1]
                 if ch == 'set_user_access':
                     wt[0], wt[5] = tok[0], tok[1]
@@ -836,6 +871,26 @@ def directed_histories(rng):
     for lun in range(4):
         H([C('get_sensor_reading', 1, lun), C('get_sensor_thresholds', 1, lun), C('set_sensor_thresholds', 1, lun, 1, 2, 3, 4, 5, 6),
            C('get_sensor_thresholds', 1, lun), C('get_sensor_thresholds', 1, (lun + 1) % 4)])
+    # sensors that flag "reading/state unavailable" while their response still carries non-zero state bytes: every pool
+    # sensor on every LUN; and the update that follows a re-arm (the state bytes are the ones from before), then the next scan
+    for lun in range(4):
+        H([{'mut': 0, 'seed': rng.randrange(1 << 30), 'fam': 'unavail'}]
+          + [C('get_sensor_reading', n, lun) for n in (0, 1, 2, 0x7f, 0x80, 0xfe, 0xff)])
+    for n in (0, 7, 0xff):
+        H([C('get_sensor_reading', n, 0), C('rearm_sensor_events', n), C('get_sensor_reading', n, 0), C('get_sensor_reading', n, 1),
+           {'mut': 0, 'seed': rng.randrange(1 << 30), 'fam': 'sensors'}, C('get_sensor_reading', n, 0)])
+    # LAN parameter revision (revision-only mode) of every channel, next to the normal mode on the same address; channels
+    # and parameters of one BMC carry different revisions
+    for ch in range(16):
+        sel = (3, 4, 5, 20, 0, 16, 192)[ch % 7]
+        H([C('get_lan_config_param', ch, sel, 0, 0, 1), C('get_lan_config_param', ch, sel, 0, 0, 0),
+           {'mut': 0, 'seed': rng.randrange(1 << 30), 'fam': 'lan'}, C('get_lan_config_param', ch, sel, 0, 0, 1),
+           C('get_lan_config_param', (ch + 1) % 16, sel, 0, 0, 1), C('get_lan_config_param', ch, (sel + 1) % 256, 1, 2, 1)])
+    # HPM.1 rollback status: component masks and completion estimates (absent, 0, non-zero) as the BMC moves
+    for _ in range(6):
+        H([C('query_rollback_status'), {'mut': 0, 'seed': rng.randrange(1 << 30), 'fam': 'hpm'}, C('query_rollback_status'),
+           {'mut': 0, 'seed': rng.randrange(1 << 30), 'fam': 'hpm'}, C('query_rollback_status', conn=1)],
+          conns=[{'bmc': 0, 'ctor': 'create_connection'}, {'bmc': 0, 'ctor': 'Ipmi'}])
     return out
 
 
@@ -906,10 +961,36 @@ def shrink(drv, hist, sig, modelled, budget=120):
     return cur
 
 
+class _Canned(object):
+    """interface that answers every request with fixed bytes and keeps the request bytes"""
+
+    def __init__(self, reply):
+        self.reply = bytes(bytearray(reply))
+        self.requests = []
+
+    def send_and_receive(self, req):
+        from pyipmi.msgs import create_message, decode_message, encode_message
+        self.requests.append(bytes(bytearray(encode_message(req))))
+        rsp = create_message(req.netfn + 1, req.cmdid, req.group_extension)
+        decode_message(rsp, self.reply)
+        return rsp
+
+
+def _probe(reply, call, intended):
+    """True when the code under test behaves as INTENDED on this witness"""
+    try:
+        import pyipmi
+        ifc = _Canned(reply)
+        return bool(intended(call(pyipmi.create_connection(ifc)), ifc.requests))
+    except Exception:  # noqa
+        return False
+
+
 def probe_variants():
-    """Which variant of the two operations with a known decoding defect does the tree under test
-    carry?  Letters for the driver's `model` command: l = LED override decode as shipped,
-    p = get_port_state as shipped."""
+    """Which variant of the operations with a known defect does the tree under test carry?  Letters for
+    the driver's `model` command (Model.Api.Variant): l = LED override decode as shipped, p = get_port_state
+    as shipped, r = get_lan_config_param(revision_only=1) as shipped (channel 0, rsp.data), b = RollbackStatus
+    without the component mask, u = get_sensor_reading builds states while reading/state is unavailable."""
     fresh_pyipmi()
     from pyipmi.msgs import decode_message
     from pyipmi.msgs.picmg import GetFruLedStateRsp
@@ -937,6 +1018,20 @@ def probe_variants():
             v += 'p'
     except Exception:  # noqa
         v += 'p'
+    # revision-only mode: request byte 1 = 80h | channel, selectors filled in, the revision byte returned
+    if not _probe([0, 0x42], lambda ip: ip.get_lan_config_param(5, 3, 7, 9, revision_only=1),
+                  lambda r, reqs: reqs == [bytes([0x85, 3, 7, 9])] and isinstance(r, int) and r == 0x42):
+        v += 'r'
+    # rollback status: the component mask, and a completion estimate of 0 / none
+    if not (_probe([0, 0, 5, 0], lambda ip: ip.query_rollback_status(),
+                   lambda r, reqs: r.rollback_status == 5 and r.percent_complete == 0)
+            and _probe([0, 0, 0x81], lambda ip: ip.query_rollback_status(),
+                       lambda r, reqs: r.rollback_status == 0x81 and r.percent_complete is None)):
+        v += 'b'
+    # reading/state unavailable (byte 3 bit 5) with state bytes present: neither reading nor states
+    if not _probe([0, 0x10, 0xe0, 0xc1, 0x80], lambda ip: ip.get_sensor_reading(1, 2),
+                  lambda r, reqs: r == (None, None)):
+        v += 'u'
     return v or '-'
 
 
@@ -990,8 +1085,9 @@ def run(ctx):
         for m in missing:
             OPS.pop(m)
     variant = probe_variants()
-    ctx.extra['model_variant'] = {'led_override_decode': 'as shipped' if 'l' in variant else 'intended',
-                                  'get_port_state_no_link': 'as shipped' if 'p' in variant else 'intended'}
+    ctx.extra['model_variant'] = dict((k, 'as shipped' if c in variant else 'intended') for k, c in (
+        ('led_override_decode', 'l'), ('get_port_state_no_link', 'p'), ('get_lan_config_param_revision_only', 'r'),
+        ('query_rollback_status_result', 'b'), ('get_sensor_reading_states_while_unavailable', 'u')))
     rng = ctx.rng('c07')
     n_hist = 260 if ctx.tier == 'quick' else 6000
     budget = 40 if ctx.tier == 'quick' else 600
